@@ -335,7 +335,7 @@ pub fn unsupported_action() -> BoxedStrategy<Act> {
 /// Shapes an optimiser would like to simplify: the same subtree twice, a subtree next to its
 /// negation, double negation, constant operands. Evaluation order, short-circuiting and the side
 /// effects of actions make most such simplifications wrong somewhere.
-fn redundant(t: E, k: u8) -> E {
+pub fn redundant(t: E, k: u8) -> E {
     let tt = || E::T(Tst::True);
     let ff = || E::T(Tst::False);
     match k % 16 {
